@@ -1,6 +1,9 @@
 """Native replay for C09: member names that try to redirect I/O, on the real functions."""
 import os
+import sys
 import tempfile
+
+sys.path.insert(0, os.path.dirname(os.path.abspath(__file__)))
 
 
 def find(req):
@@ -39,7 +42,11 @@ def find(req):
             if ae._should_skip_file(fn, bn) != want:
                 return {"reproduced": True, "target": "archive_extractor.py::_should_skip_file", "inputs": {"filename": fn, "basename": bn},
                         "expected": f"skip == {want}", "observed": f"skip == {not want}"}
-    return {"reproduced": False, "note": "hostile member names could not redirect I/O natively"}
+    import archive_probe
+    r = archive_probe.oversize_members()
+    if r is not None:
+        return r
+    return {"reproduced": False, "note": "hostile member names could not redirect I/O natively; oversize members (incl. records sharing a name) gave no result"}
 
 
 def rerun(stored):
